@@ -33,7 +33,8 @@ Schemes == <<
   << <<"a","b">>, <<"a","b","c">>, <<"b">>, <<"a">>, <<"b","c">> >>,     \* 5: prefixes / suffixes (anchoring)
   << <<"[","a","]">>, <<"(","a">>, <<"a",";","b">>, <<"a","*">>, <<"$">> >>, \* 6: brackets, other separator, star in a name
   << <<"1">>, <<"2">>, <<"1","0">>, <<"1">>, <<"0">> >>,                 \* 7: numeric path attribute values
-  << <<"N","o","n","e">>, <<"N","o","n","e">>, <<"x">>, <<"N","o","n","e">>, <<"x">> >>  \* 8: missing attribute -> "None"
+  << <<"N","o","n","e">>, <<"N","o","n","e">>, <<"x">>, <<"N","o","n","e">>, <<"x">> >>, \* 8: missing attribute -> "None"
+  << <<"a">>, <<"a","\n","b">>, <<"b">>, <<"\n","a">>, <<"a","\n">> >>                   \* 9: a line break inside a name (whole name anchored)
 >>
 
 Nodes == 1..k
